@@ -13,7 +13,7 @@ import (
 //   cfg:  kind max target      kind 0 Default | 1 Fixed(max,target) | 2 "all" (returns size+5) | 3 "none" (returns -3)
 //   ops:  0 n v.. Put | 1 n v.. PutCancelled | 2 New | 3 c Get | 4 c GetCancelled | 5 c Commit | 6 c Rollback | 7 c Diff
 //         8 Size | 9 Slice | 10 c CloseC | 11 CloseB | 12 c DoneC | 13 DoneB | 14 Settled | 15 c ProbeGet
-//         16 c ProbeCloseC | 17 ProbeCloseB | 100 c bounded n script.. Range (script: 0 true | 1 false | 2 panic)
+//         16 c ProbeCloseC | 17 ProbeCloseB | 100 c bounded n script.. Range (script: 0 true | 1 false | 2 panic | 1000+v put v, true)
 //   outs: 0 v RVal | 1 REmpty | 2 RErr | 3 ROk | 4 c RId | 5 RBlocked | 6 n ok RDiff | 7 n RInt | 8 n v.. RBuf | 9 b RBool
 //         100 end n v..  Range result (end: 0 nil | 1 err | 2 panic)
 
@@ -292,11 +292,15 @@ func (r *bufRun) rangeOp(c int, bounded bool, script []int) {
 				} else {
 					k = 1
 				}
-				switch k {
-				case 0:
+				switch {
+				case k == 0:
 					return true
-				case 1:
+				case k == 1:
 					return false
+				case k >= 1000:
+					// the callback puts a value while it is running for the current one
+					_ = r.b.Put(context.Background(), k-1000)
+					return true
 				default:
 					panic("verif: scripted callback panic")
 				}
@@ -444,11 +448,18 @@ func bufK1Case(h *hctx, id int) {
 			}
 		case x < 82:
 			c := pick()
-			if free(c) {
-				r.exec([]int{7, c}, func() []int {
+			if free(c) || (r.pendGet[c] != nil && r.pendOther[c] < 2 && rng.Intn(2) == 0) {
+				if r.pendGet[c] != nil {
+					r.pendOther[c]++
+					h.count("op_on_consumer_with_parked_get", 1)
+				}
+				o := r.exec([]int{7, c}, func() []int {
 					n, ok := r.b.Diff(r.cons[c])
 					return []int{6, n, boolInt(ok)}
 				})
+				if !o.returned() {
+					r.pendOps[c] = append(r.pendOps[c], o)
+				}
 			}
 		case x < 85:
 			r.exec([]int{8}, func() []int { return []int{7, r.b.Size()} })
@@ -462,7 +473,13 @@ func bufK1Case(h *hctx, id int) {
 			// release a parked Get by cancelling its context
 			for c, cancel := range r.getStop {
 				cancel()
-				<-r.pendGet[c].done
+				select {
+				case <-r.pendGet[c].done:
+				case <-time.After(2 * time.Second):
+					h.line("MONITOR C05 a parked Get of consumer %d did not return within 2 s of its context being cancelled (case %d)", c, id)
+					r.record(fmt.Sprintf("k1-%d-%d-hung", h.seed, id), []int{kind, mx, tg})
+					return
+				}
 				h.count("get_cancelled_while_parked", 1)
 				break
 			}
@@ -496,8 +513,12 @@ func bufK1Case(h *hctx, id int) {
 				script := make([]int, n)
 				for i := range script {
 					script[i] = 0
-					if rng.Intn(6) == 0 {
+					switch x := rng.Intn(12); {
+					case x < 2:
 						script[i] = 1 + rng.Intn(2)
+					case x < 5:
+						script[i] = 1000 + r.nextVal // put-then-continue
+						r.nextVal++
 					}
 				}
 				r.rangeOp(c, rng.Intn(3) != 0, script)
@@ -505,10 +526,16 @@ func bufK1Case(h *hctx, id int) {
 			}
 		}
 	}
-	// wind down: release parked Gets, observe final state
+	// wind down: release parked Gets (their contexts are cancelled: they must return), observe final state
 	for c, cancel := range r.getStop {
 		cancel()
-		<-r.pendGet[c].done
+		select {
+		case <-r.pendGet[c].done:
+		case <-time.After(2 * time.Second):
+			h.line("MONITOR C05 a parked Get of consumer %d did not return within 2 s of its context being cancelled (case %d)", c, id)
+			r.record(fmt.Sprintf("k1-%d-%d-hung", h.seed, id), []int{kind, mx, tg})
+			return
+		}
 	}
 	r.sweepPending()
 	r.settle()
